@@ -108,6 +108,9 @@ pub struct ParCfg {
     /// 0 = no filter stage; otherwise a `filter` stage keeps the items with keep(x, seed),
     /// which makes some fold leaves empty (an unindexed iterator with holes).
     pub filter_seed: u64,
+    /// alternative filter stage: keep x >= threshold (NaN = off).  With ascending data this empties almost all of
+    /// the leading fold leaves, so that a tiny left partial result meets a huge right one in the reduction.
+    pub filter_ge: f64,
 }
 
 #[inline]
@@ -123,6 +126,11 @@ fn mix(x: f64, seed: u64) -> u64 {
 #[inline]
 pub fn keep(x: f64, seed: u64) -> bool {
     seed == 0 || mix(x, seed) % 3 != 0
+}
+
+#[inline]
+pub fn keep2(x: f64, seed: u64, ge: f64) -> bool {
+    keep(x, seed) && !(x < ge)
 }
 
 pub trait Est: Sized + Clone {
@@ -215,22 +223,23 @@ where
     let max_len = cfg.max_len;
     let byref = cfg.byref;
     let fseed = cfg.filter_seed;
+    let fge = cfg.filter_ge;
     with_pool(cfg.threads, move || {
         if byref {
             let it = data.par_iter();
             match (min_len, max_len) {
-                (0, 0) => it.filter(|x| keep(**x, fseed)).map(|x| { delay(*x, seed); x }).collect(),
-                (a, 0) => it.with_min_len(a).filter(|x| keep(**x, fseed)).map(|x| { delay(*x, seed); x }).collect(),
-                (0, b) => it.with_max_len(b).filter(|x| keep(**x, fseed)).map(|x| { delay(*x, seed); x }).collect(),
-                (a, b) => it.with_min_len(a).with_max_len(b).filter(|x| keep(**x, fseed)).map(|x| { delay(*x, seed); x }).collect(),
+                (0, 0) => it.filter(|x| keep2(**x, fseed, fge)).map(|x| { delay(*x, seed); x }).collect(),
+                (a, 0) => it.with_min_len(a).filter(|x| keep2(**x, fseed, fge)).map(|x| { delay(*x, seed); x }).collect(),
+                (0, b) => it.with_max_len(b).filter(|x| keep2(**x, fseed, fge)).map(|x| { delay(*x, seed); x }).collect(),
+                (a, b) => it.with_min_len(a).with_max_len(b).filter(|x| keep2(**x, fseed, fge)).map(|x| { delay(*x, seed); x }).collect(),
             }
         } else {
             let it = data.to_vec().into_par_iter();
             match (min_len, max_len) {
-                (0, 0) => it.filter(|x| keep(*x, fseed)).map(|x| { delay(x, seed); x }).collect(),
-                (a, 0) => it.with_min_len(a).filter(|x| keep(*x, fseed)).map(|x| { delay(x, seed); x }).collect(),
-                (0, b) => it.with_max_len(b).filter(|x| keep(*x, fseed)).map(|x| { delay(x, seed); x }).collect(),
-                (a, b) => it.with_min_len(a).with_max_len(b).filter(|x| keep(*x, fseed)).map(|x| { delay(x, seed); x }).collect(),
+                (0, 0) => it.filter(|x| keep2(*x, fseed, fge)).map(|x| { delay(x, seed); x }).collect(),
+                (a, 0) => it.with_min_len(a).filter(|x| keep2(*x, fseed, fge)).map(|x| { delay(x, seed); x }).collect(),
+                (0, b) => it.with_max_len(b).filter(|x| keep2(*x, fseed, fge)).map(|x| { delay(x, seed); x }).collect(),
+                (a, b) => it.with_min_len(a).with_max_len(b).filter(|x| keep2(*x, fseed, fge)).map(|x| { delay(x, seed); x }).collect(),
             }
         }
     })
